@@ -326,10 +326,19 @@ fn gen_c03(ch: &mut Choices) -> Plan {
                 plan.peer.script.push(step(Pkt::Publish(p), ver, Pre::Connected));
                 if qos == 2 {
                     let rel = step(Pkt::PubRel(Ack::ok(pid.unwrap())), ver, Pre::SawPubRec(pid.unwrap(), 1));
+                    // (now and then the PUBREL is re-transmitted right behind the first one: one success
+                    // PUBCOMP at most; the second PUBREL finds no exchange waiting for it)
+                    let twice = ch.chance(1, 6);
                     if ch.chance(1, 3) {
-                        plan.peer.script.push(rel);
+                        plan.peer.script.push(rel.clone());
+                        if twice {
+                            plan.peer.script.push(rel);
+                        }
                     } else {
-                        pubrels.push(rel);
+                        pubrels.push(rel.clone());
+                        if twice {
+                            pubrels.push(rel);
+                        }
                     }
                 }
             }
@@ -784,6 +793,9 @@ fn gen_c11(ch: &mut Choices) -> Plan {
     let mut plan = base_plan("C11", role, ch);
     plan.cut = *ch.pick(&[Cut::All, Cut::Random]);
     plan.p_immediate = *ch.pick(&[0u32, 0, 200, 500]);
+    // with and without the topic router (clients: ClientRouter): publishes consumed by a resource handler
+    // take another path through the dispatchers than those going to the default / control service
+    plan.cfg.use_router = ch.chance(1, 3);
     // negative acks are one of the ack paths that must release the id (v5)
     plan.w_outcome = *ch.pick(&[[1u32, 0, 0], [6, 3, 0]]);
     let client_q2 = role.is_server() || ch.chance(1, 2);
@@ -2333,6 +2345,7 @@ fn gen_c11x(ch: &mut Choices) -> Plan {
     let ver = role.ver();
     let mut plan = base_plan("C11X", role, ch);
     plan.cut = *ch.pick(&[Cut::All, Cut::Random]);
+    plan.cfg.use_router = ch.chance(1, 3);
     // handler behaviour: 0 all immediate; 1 gated, completed in a seeded order; 2 gated, negative
     // outcomes (v5) and some held until the closing phase; 3 gated, and PUBREL does not wait for PUBREC
     match mode {
